@@ -26,6 +26,8 @@ class Convert(Contract):
     into the destination format under the destination's rounding and overflow modes; the shape is preserved,
     the source is unchanged, and (for routes that create an object) nothing mutable is shared."""
     name = 'objects:Fxp.convert-routes'
+    primary = ['C10', 'C20']
+    secondary_stride = 3
     layer = 5
     uses = LOWER
     props = {'code_eq_Q': ['C10'], 'format': ['C10', 'C02'], 'shape': ['C10'], 'source_unchanged': ['C10', 'C20'],
